@@ -33,12 +33,14 @@ const (
 	VLit   // function literal
 	VTok   // domain-defined token; S = token
 	VNonNil
+	VAddr // address of a local variable (Ref); dereferences read/write that variable
 )
 
 type Value struct {
 	Kind ValKind
 	S    string
 	Lit  *ast.FuncLit
+	Ref  types.Object
 }
 
 var unknown = Value{}
@@ -53,6 +55,8 @@ func (v Value) key() string {
 		return "nonnil"
 	case VLit:
 		return fmt.Sprintf("lit@%d", v.Lit.Pos())
+	case VAddr:
+		return fmt.Sprintf("addr@%d", v.Ref.Pos())
 	}
 	return fmt.Sprintf("%d:%s", v.Kind, v.S)
 }
@@ -85,6 +89,12 @@ func (v Value) isFalse() bool { return v.Kind == VConst && v.S == "false" }
 func valuesEqual(a, b Value) (bool, bool) {
 	if a.Kind == VUnknown || b.Kind == VUnknown {
 		return false, false
+	}
+	if a.Kind == VAddr {
+		a = Value{Kind: VNonNil}
+	}
+	if b.Kind == VAddr {
+		b = Value{Kind: VNonNil}
 	}
 	if a.Kind == VNonNil || b.Kind == VNonNil {
 		other := a
@@ -261,22 +271,22 @@ func (BaseDomain) Call(*Interp, *Frame, *State, *ast.CallExpr, *Callee, []Value)
 	return nil, false
 }
 func (BaseDomain) Inline(*Interp, *Frame, *State, *ast.CallExpr, *Callee) []*Func { return nil }
-func (BaseDomain) Visit(_ *Interp, _ *Frame, st *State, _ ast.Node) *State          { return st }
+func (BaseDomain) Visit(_ *Interp, _ *Frame, st *State, _ ast.Node) *State        { return st }
 func (BaseDomain) Cond(_ *Interp, _ *Frame, st *State, _ ast.Expr, _ bool) (*State, bool) {
 	return st, true
 }
 func (BaseDomain) Exit(*Interp, *Frame, *State, *ast.ReturnStmt, []Value) {}
 
 type Interp struct {
-	P         *Prog
-	Dom       Domain
-	MaxDepth  int
-	ids       map[types.Object]int
-	Undecided []string // constructs the walker could not model
-	Steps     int
-	Inlined   map[string]bool
-	loopLimit int
-	CondVal   Value // value of the atomic condition being refined (valid inside Domain.Cond)
+	P            *Prog
+	Dom          Domain
+	MaxDepth     int
+	ids          map[types.Object]int
+	Undecided    []string // constructs the walker could not model
+	Steps        int
+	Inlined      map[string]bool
+	loopLimit    int
+	CondVal      Value    // value of the atomic condition being refined (valid inside Domain.Cond)
 	recvOverride ast.Expr // receiver expression for the next inline (callbacks such as container/heap)
 }
 
@@ -465,7 +475,7 @@ func (ip *Interp) runFrame(fr *Frame, init *State) []retOut {
 				}
 				progressed = true
 				d := st.defers[n-1]
-				popped := &State{Dom: st.Dom, env: st.env, defers: st.defers[:n-1:n-1]}
+				popped := &State{Dom: st.Dom, env: st.env, defers: st.defers[: n-1 : n-1]}
 				for _, o := range ip.evalCall(fr, popped, d.call) {
 					next = append(next, o.St)
 				}
@@ -789,6 +799,18 @@ func (ip *Interp) execAssign(fr *Frame, s *ast.AssignStmt, st *State) []*State {
 		for _, x := range sts {
 			ns := x
 			for i, l := range s.Lhs {
+				if star, ok := ast.Unparen(l).(*ast.StarExpr); ok {
+					if pid, ok := ast.Unparen(star.X).(*ast.Ident); ok {
+						if p := ip.lookup(ns, info.ObjectOf(pid)); p.Kind == VAddr {
+							v := unknown
+							if i < len(r.vals) && s.Tok == token.ASSIGN {
+								v = r.vals[i]
+							}
+							ns = ip.bind(ns, p.Ref, v, fr.Depth)
+						}
+					}
+					continue
+				}
 				id, ok := l.(*ast.Ident)
 				if !ok || id.Name == "_" {
 					continue
@@ -1261,6 +1283,12 @@ func (ip *Interp) pureValue(fr *Frame, st *State, e ast.Expr) Value {
 	switch x := e.(type) {
 	case *ast.Ident:
 		return ip.identValue(fr, st, x)
+	case *ast.StarExpr:
+		if id, ok := ast.Unparen(x.X).(*ast.Ident); ok {
+			if p := ip.identValue(fr, st, id); p.Kind == VAddr {
+				return ip.lookup(st, p.Ref)
+			}
+		}
 	case *ast.SelectorExpr:
 		if _, ok := info.Selections[x]; !ok {
 			if obj := info.Uses[x.Sel]; obj != nil {
@@ -1359,7 +1387,15 @@ func (ip *Interp) eval(fr *Frame, st *State, e ast.Expr) []Out {
 		}
 		return outs
 	case *ast.StarExpr:
-		return ip.evalUnknown(fr, st, x.X)
+		var outs []Out
+		for _, o := range ip.eval(fr, st, x.X) {
+			v := unknown
+			if p := o.val(); p.Kind == VAddr {
+				v = ip.lookup(o.St, p.Ref)
+			}
+			outs = append(outs, Out{St: o.St, Vals: []Value{v}})
+		}
+		return outs
 	case *ast.UnaryExpr:
 		if v, ok := constOf(x); ok {
 			return one(st, v)
@@ -1389,6 +1425,11 @@ func (ip *Interp) eval(fr *Frame, st *State, e ast.Expr) []Out {
 			v := unknown
 			if x.Op == token.AND {
 				v = Value{Kind: VNonNil}
+				if id, ok := ast.Unparen(x.X).(*ast.Ident); ok {
+					if obj, ok := info.ObjectOf(id).(*types.Var); ok && !obj.IsField() && (obj.Pkg() == nil || obj.Parent() != obj.Pkg().Scope()) {
+						v = Value{Kind: VAddr, Ref: obj}
+					}
+				}
 			}
 			outs = append(outs, Out{St: ns, Vals: []Value{v}})
 		}
